@@ -714,7 +714,7 @@ func runConsumer(c *evid.Case) {
 		}
 		if cl.QueueStuck {
 			violated = true
-			c.Violation("pop-blocked-with-admissible", role.String()+"/"+phase, "the consumer did not pop a queued message that its filter admits (10 s watchdog): lost, or the pop never returned it", map[string]any{"actions": tailS(cl.Acts, 80)})
+			c.Violation("pop-blocked-with-admissible", role.String()+"/"+phase, "the consumer did not pop a queued message that its filter admits (50 s watchdog): lost, or the pop never returned it", map[string]any{"actions": tailS(cl.Acts, 80)})
 			return
 		}
 		for _, op := range hon {
@@ -743,7 +743,7 @@ func runConsumer(c *evid.Case) {
 		}
 		if cl.QueueStuck {
 			violated = true
-			c.Violation("pop-blocked-with-admissible", role.String()+"/"+phase, "the consumer did not pop a message that the filter admits (180 s watchdog)", map[string]any{"actions": tailS(cl.Acts, 80)})
+			c.Violation("pop-blocked-with-admissible", role.String()+"/"+phase, "the consumer did not pop a message that the filter admits (watchdog)", map[string]any{"actions": tailS(cl.Acts, 80)})
 		}
 	}
 	// phase 0: early consensus traffic for the coming duty while no duty is running (must stay queued)
